@@ -8,4 +8,4 @@ Extraction Language OCaml.
 Set Extraction Optimize.
 Extraction "model.ml" Z.add N.add Nat.add drv_id_parse drv_id_format
   drv_time_parse drv_time_format
-  drv_exec drv_elems drv_docs drv_empty drv_xexec drv_simple_object_ops.
+  drv_exec drv_elems drv_docs drv_empty drv_xexec drv_simple_object_ops drv_op_ok drv_uniq.
